@@ -305,6 +305,14 @@ pub fn finish(ctx: Ctx) -> i32 {
     exit
 }
 
+/// development aid: VERIF_ONLY_FAMILY=<substring> runs only the families whose name contains it
+pub fn family_filtered_out(family: &str) -> bool {
+    match std::env::var("VERIF_ONLY_FAMILY") {
+        Ok(f) if !f.is_empty() => !family.contains(&f),
+        _ => false,
+    }
+}
+
 /// Outcome of one generated case.
 pub type CaseResult = Result<(), String>;
 
@@ -321,6 +329,9 @@ where
     F: Fn(&S::Value, &mut Stats) -> CaseResult + Sync,
     C: Fn(&S::Value) -> Value + Sync,
 {
+    if family_filtered_out(family) {
+        return;
+    }
     let workers = ctx.workers.max(1);
     let per = (cases as usize + workers - 1) / workers;
     let merged: Mutex<(Stats, Vec<Violation>, Vec<String>)> = Mutex::new((Stats::new(), vec![], vec![]));
@@ -405,6 +416,9 @@ where
     F: Fn(u64, &mut Stats) -> CaseResult + Sync,
     C: Fn(u64) -> Value + Sync,
 {
+    if family_filtered_out(family) {
+        return;
+    }
     let workers = ctx.workers.max(1) as u64;
     let merged: Mutex<(Stats, Vec<(u64, String)>)> = Mutex::new((Stats::new(), vec![]));
     std::thread::scope(|sc| {
